@@ -42,7 +42,7 @@ import (
 
 func TestMain(m *testing.M) {
 	stats.Init("C18")
-	stats.Rule("rapid draws (pattern, socket|context) from the support table of the option under test (RECV-DEADLINE 25 kinds, SEND-DEADLINE/BEST-EFFORT 15 kinds, FAIL-NO-PEERS 4 kinds, never-blocking senders 9 kinds), d in {5,20,50} ms, WRITEQ-LEN in {0,1,2} (push: {1,2}), queue state (send side: empty / partially full / full, filled through vt back-pressure; receive side: empty / 1-3 queued / READQ-LEN exactly full), peer state (none / connected silent or blocked / accepting / leaving mid-call / left before) and the way a no-deadline call is unblocked (inject, release, connect, close). One timed API call per case. Also: best effort next to a 5 s send deadline; REQ Send waiting for a connection with a Recv behind it; REQ request sent under a 30 ms send deadline; fail-no-peers with one of two stuck peers leaving. Non-trivial: the timed call really blocked (a probe saw it still pending after d/2, or after 150 ms for no-deadline calls), or — for best-effort / fail-no-peers — the same call without the option would have blocked (full queue or no peer); distinct by (test, kind, scenario, peer, d, wq, pre, unblock). A (scenario, peer, kind) shape that hit a listed known finding twice is no longer generated in that process")
+	stats.Rule("rapid draws (pattern, socket|context) from the support table of the option under test (RECV-DEADLINE 25 kinds, SEND-DEADLINE/BEST-EFFORT 15 kinds, FAIL-NO-PEERS 4 kinds, never-blocking senders 9 kinds), d in {5,20,50} ms, WRITEQ-LEN in {0,1,2} (push: {1,2}), queue state (send side: empty / partially full / full, filled through vt back-pressure; receive side: empty / 1-3 queued / READQ-LEN exactly full), peer state (none / connected silent or blocked / accepting / leaving mid-call / left before) and the way a no-deadline call is unblocked (inject, release, connect, close). One timed API call per case. Also: best effort next to a 5 s send deadline; REQ Send waiting for a connection with a Recv behind it; REQ request sent under a 30 ms send deadline; fail-no-peers with one of two stuck peers leaving. Non-trivial: the timed call really blocked (a probe saw it still pending after d/2, or after 150 ms for no-deadline calls), or — for best-effort / fail-no-peers — the same call without the option would have blocked (full queue or no peer); distinct by (test, kind, scenario, peer, d, wq, pre, unblock). A (scenario, peer, kind) shape that hit a listed known finding twice is no longer generated in that process. Round 5: other options re-set every d/3 while a timed Recv/Send waits; fail-no-peers states second-arrives-all-leave and left-then-off")
 	stats.Assume("lower bounds exact, upper bounds generous (d+2s), at-once success under the 3x re-execution rule")
 	stats.Assume("'at once' / 'immediately' = within 1 s; 'it waits' = still blocked after 150 ms")
 	stats.Assume("negative deadlines (documented as non-blocking, implemented as no deadline) are outside the statement and not generated")
